@@ -78,7 +78,8 @@ func genC0x(r *hysim.Rand, tier string, c02 bool) *hysim.Script {
 		}
 		switch {
 		case p < 22:
-			sc.Ops = append(sc.Ops, hysim.Op{K: "auth", A: []int64{c, async, int64(r.Pick(0, 0, 1, 2, 2, 3)), r.Pick64(0, 0, 65536, 1000000)}})
+			// (last argument: how the request spells its receive rate - 0 = the decimal number)
+			sc.Ops = append(sc.Ops, hysim.Op{K: "auth", A: []int64{c, async, int64(r.Pick(0, 0, 1, 2, 2, 3)), r.Pick64(0, 0, 65536, 1000000), int64(r.Pick(0, 0, 0, 0, 1, 2, 3, 4, 5, 6, 7, 8))}})
 		case p < 45:
 			sc.Ops = append(sc.Ops, hysim.Op{K: "http", A: []int64{c, async, int64(r.Intn(len(c01Methods))), int64(r.Pick(0, 0, 0, 1, 2, 3, 4, 5)), int64(r.Pick(0, 0, 0, 1, 2, 3, 4, 5, 6)), int64(r.Intn(4)), int64(r.Pick(0, 0, 10, 300))}})
 		case p < 68:
@@ -348,6 +349,17 @@ func (cw *c01World) runOp(c *c01Conn, oi int, op hysim.Op) {
 		hdr.Set("Hysteria-Auth", cred)
 		hdr.Set("Hysteria-CC-RX", fmt.Sprint(op.Arg(3)))
 		hdr.Set("Hysteria-Padding", "ppppppppppppppppppppppppp")
+		if v := int(op.Arg(4)); v > 0 {
+			// whatever a client writes there, the answer depends on the authenticator's verdict only
+			odd := []string{"", "", "abc", "-1", "1.5e6", "auto", "18446744073709551616", " 100", "100mbps"}
+			if v == 1 {
+				hdr.Del("Hysteria-CC-RX")
+				hdr.Del("Hysteria-Padding")
+			} else {
+				hdr.Set("Hysteria-CC-RX", odd[v%len(odd)])
+			}
+			x.Probe("auth-with-odd-rate-header")
+		}
 		c.authShaped++
 		c.credsSent = append(c.credsSent, cred)
 		inv := x.Seq()
